@@ -21,7 +21,7 @@ def check(ctx):
   r1_r2(ctx)
   from . import c12
   ctx.rule('C12.R2', 'shared with C12: the balancer charges a member only for a call that can still complete (timeout event absent or not set)')
-  c12.gate_direct(ctx)
+  c12.r2(ctx)
   r3(ctx)
   r4(ctx)
   r5(ctx)
@@ -177,6 +177,13 @@ def r4(ctx):
     loaded = has_fact(ev, None, '%s.load == self.Idle' % node, False) and has_fact(ev, None, '%s.load >= 0' % node, False)
     if idle_or_down:
       ctx.ob('C04.R4', r, 'idle or marked-down member is closed at once', len(closes) == 1, 'closes: %d under %s' % (len(closes), fs), why)
+      # Close() of a channel fails its in-flight requests synchronously (mux transport, pools): their release re-enters __Put, which
+      # tells a departed node by index < 0 -- the mark has to be in place before the close
+      ci = [i for i, e in enumerate(ev) if e.kind == 'call' and U(e.node.func) == node + '.channel.Close']
+      mi = [i for i, e in enumerate(ev) if e.kind == 'stmt' and isinstance(e.node, ast.Assign) and U(e.node.targets[0]) == node + '.index' and U(e.node.value) == '-1']
+      ctx.ob('C04.R4', r, 'the departed node is marked (index = -1) before its channel is closed', bool(ci) and bool(mi) and mi[0] < ci[0],
+             'channel.Close() at event %s, index = -1 at %s: a release that re-enters from inside Close() sees a stale index one past the end of the heap and sifts it (IndexError, callers unanswered)' % (ci, mi),
+             why)
     elif loaded:
       ctx.ob('C04.R4', r, 'a member with outstanding requests is not closed yet', not closes, 'closes a loaded member at removal', why + ' (its in-flight requests would be cut off)')
     else:
